@@ -155,6 +155,7 @@ func (db *DB) newMem(n int) (mem *memDB, err error) {
 	// The seq only incremented by the writer. And whoever called newMem
 	// should hold write lock, so no need additional synchronization here.
 	db.frozenSeq = db.seq
+	verifTrace(db.s, "m:rotate", db.journalFd.Num, db.frozenJournalFd.Num, int64(db.frozenSeq), verifB(db.frozenMem != nil))
 	return
 }
 
@@ -198,6 +199,7 @@ func (db *DB) getFrozenMem() *memDB {
 // Drop frozen memdb; assume that frozen memdb isn't nil.
 func (db *DB) dropFrozenMem() {
 	db.memMu.Lock()
+	verifTrace(db.s, "m:drop-begin", db.frozenJournalFd.Num)
 	if err := db.s.stor.Remove(db.frozenJournalFd); err != nil {
 		db.logf("journal@remove removing @%d %q", db.frozenJournalFd.Num, err)
 	} else {
@@ -206,6 +208,7 @@ func (db *DB) dropFrozenMem() {
 	db.frozenJournalFd = storage.FileDesc{}
 	db.frozenMem.decref()
 	db.frozenMem = nil
+	verifTrace(db.s, "m:drop")
 	db.memMu.Unlock()
 }
 
